@@ -219,21 +219,30 @@ theorem canonical_cycle : ∀ (xs : List Ext), (∀ e ∈ xs, e.first < e.last) 
 
 /-! ### the walk of `std::for_each` over `elements()` -/
 
-theorem walk_run (base : Int) (lay : Layout) (xs : List Ext) (e : ElemIt) (t : List Int) (c : Bool) :
+theorem walk_run (base : Int) (lay : Layout) (xs : List Ext) (e : ElemIt) (t : List Int) (c : Bool)
+    (hfl : ∀ n, ∃ r, ElemRange.fromLinearG xs n = some r) :
     ∀ (l : List (List Int)) (s : List Int) (k : Int), Run (nextIdx xs) (s :: l) t c → e.n = k + Int.ofNat (l.length + 1) →
-      ElemIt.walk ⟨base, lay, k, xs, s⟩ e (l.length + 1) = (s :: l).map (fun ns => base + lay.apply ns)
-  | [], s, k, _, hn => by
+      ElemIt.walk ⟨base, lay, k, xs, s⟩ e (l.length + 1) = some ((s :: l).map (fun ns => base + lay.apply ns))
+  | [], s, k, hrun, hn => by
     have hne : (k == e.n) = false := by simp at hn; simp; omega
-    simp [ElemIt.walk, ElemIt.eq, hne, ElemIt.current]
+    have hstep : Exts.nextCanonical xs s = (t, c) := hrun
+    obtain ⟨r, hr⟩ := hfl (k + 1)
+    have hinc : ∃ it', ElemIt.inc ⟨base, lay, k, xs, s⟩ = some it' := by
+      simp only [ElemIt.inc, hstep]
+      cases c <;> simp [hr]
+    obtain ⟨it', hit⟩ := hinc
+    rw [ElemIt.walk]
+    simp [ElemIt.eq, hne, hit, ElemIt.walk, ElemIt.current, bind, Option.bind]
   | s' :: l', s, k, hrun, hn => by
     have hne : (k == e.n) = false := by simp only [List.length_cons, Int.ofNat_eq_natCast, Int.natCast_add, Int.natCast_one] at hn; simp; omega
     have hstep : Exts.nextCanonical xs s = (s', false) := hrun.1
-    have ih := walk_run base lay xs e t c l' s' (k + 1) hrun.2 (by
+    have ih := walk_run base lay xs e t c hfl l' s' (k + 1) hrun.2 (by
       simp only [List.length_cons, Int.ofNat_eq_natCast, Int.natCast_add, Int.natCast_one] at hn ⊢; omega)
+    have hinc : ElemIt.inc ⟨base, lay, k, xs, s⟩ = some ⟨base, lay, k + 1, xs, s'⟩ := by
+      simp [ElemIt.inc, hstep]
     simp only [List.length_cons, List.map_cons] at ih ⊢
     rw [ElemIt.walk]
-    simp only [ElemIt.eq, hne, Bool.false_eq_true, if_false, ElemIt.current, ElemIt.inc, hstep]
-    rw [ih]
+    simp only [ElemIt.eq, hne, Bool.false_eq_true, if_false, hinc, bind, Option.bind, ih, ElemIt.current, pure]
 
 theorem numElements_eq_nElems (xs : List Ext) : Exts.numElements xs = nElems xs := by
   induction xs with
@@ -257,6 +266,12 @@ theorem fromLinear_some : ∀ (xs : List Ext) (n : Int), nElems xs ≠ 0 → ∃
     obtain ⟨r, hr⟩ := fromLinear_some (e2 :: es) (n.tmod (nElems (e2 :: es))) hsub
     refine ⟨n.tdiv (nElems (e2 :: es)) :: r, ?_⟩
     simp only [Exts.fromLinear, numElements_eq_nElems, hsub, if_false, hr, Option.map]
+
+theorem fromLinearG_some (xs : List Ext) (n : Int) : ∃ r, ElemRange.fromLinearG xs n = some r := by
+  unfold ElemRange.fromLinearG
+  by_cases h : Exts.numElements xs = 0
+  · exact ⟨_, by rw [if_pos h]⟩
+  · rw [if_neg h]; exact fromLinear_some xs n (by rwa [numElements_eq_nElems] at h)
 
 theorem boxIndices_empty : ∀ (xs : List Ext), Valid xs → nElems xs = 0 → boxIndices xs = []
   | [], _, h => by simp [nElems] at h
@@ -299,7 +314,7 @@ theorem elements_walk (v : View) (hwf : v.lay.WF) :
     (do let r := ElemRange.ofView v
         let b ← r.begin'
         let e ← r.end'
-        pure (b.walk e (e.diff b).toNat)) = some (v.lay.canonOffs.map (v.base + ·)) := by
+        b.walk e (e.diff b).toNat) = some (v.lay.canonOffs.map (v.base + ·)) := by
   have hl0 : ElemRange.ofView v = ⟨v.base, v.lay.map Dim.zeroOff⟩ := by simp [ElemRange.ofView, reindex_all_zeros]
   have hwf0 := zeroOff_wf hwf
   obtain ⟨hval, hfirst⟩ := zeroOff_exts hwf
@@ -352,7 +367,7 @@ theorem elements_walk (v : View) (hwf : v.lay.WF) :
     rw [hfuel]
     have := walk_run v.base (v.lay.map Dim.zeroOff) (Layout.exts (v.lay.map Dim.zeroOff))
       ⟨v.base, v.lay.map Dim.zeroOff, nElems (Layout.exts (v.lay.map Dim.zeroOff)), Layout.exts (v.lay.map Dim.zeroOff), rend⟩
-      ((Layout.exts (v.lay.map Dim.zeroOff)).map Ext.first) true tl ((Layout.exts (v.lay.map Dim.zeroOff)).map Ext.first) 0 hrun (by
+      ((Layout.exts (v.lay.map Dim.zeroOff)).map Ext.first) true (fromLinearG_some _) tl ((Layout.exts (v.lay.map Dim.zeroOff)).map Ext.first) 0 hrun (by
         simp only [Int.zero_add]
         have : Int.ofNat (tl.length + 1) = ((nElems (Layout.exts (v.lay.map Dim.zeroOff))).toNat : Int) := by rw [hfuel]; rfl
         rw [this]; omega)
